@@ -65,6 +65,26 @@ def coq_shape(sh):
     return "[" + "; ".join("{| sk := %s; snode := %s |}" % (d["kind"], "true" if d["has_node"] else "false") for d in sh) + "]"
 
 
+def positions(sh, line_of, stack_lines=()):
+    """defer statement j of the source -> position of its replay statement in compile order; all defer
+    statements of a range-over-func body share the position of the drain registered after the call, and
+    the function's own defers that push to the explicit stack (no replay statement of their own) are
+    attributed to the first drain"""
+    pos_of = {}
+    first_drain = None
+    for pos, d in enumerate(sh):
+        if d.get("lines") and first_drain is None:
+            first_drain = pos
+        for ln in [d["line"]] + (d.get("lines") or []):
+            if ln in line_of:
+                pos_of[line_of[ln][1]] = pos
+    if first_drain is not None:
+        for ln in stack_lines:
+            if ln in line_of:
+                pos_of[line_of[ln][1]] = first_drain
+    return pos_of
+
+
 def classify(sh, pos_of, regs):
     """which premise of defers_lifo_exactly_once does this run violate?"""
     executed = [pos_of[j] for j, _ in regs if j in pos_of]
@@ -166,7 +186,7 @@ def run(ck):
             if len(done) < len(keys):
                 kfn, kin = keys[len(done)]
                 ksh = shapes.get(kfn, {}).get("defers", [])
-                kpos = {line_of[d["line"]][1]: pos for pos, d in enumerate(ksh) if d["line"] in line_of}
+                kpos = positions(ksh, line_of, shapes.get(kfn, {}).get("stack_lines") or ())
                 kcls = classify(ksh, kpos, go_runs[keys[len(done)]]["regs"]) if ksh else None
                 ck.violation(kcls if kcls == "defer-lifo-broken-by-block-compile-order" else "defer-run-kills-process",
                              "run f%d(%d) (generator seed %d) kills the llgo-compiled process (rc=%s)" % (kfn, kin, seed, a[0]),
@@ -195,13 +215,12 @@ def run(ck):
                 ck.correspondence_broken("shape-missing", "f%d" % fn)
                 continue
             sh = vf["defers"]
-            pos_of = {}
-            for pos, d in enumerate(sh):
-                if d["line"] in line_of:
-                    pos_of[line_of[d["line"]][1]] = pos
-            j_of = {v: k for k, v in pos_of.items()}
+            pos_of = positions(sh, line_of, vf.get("stack_lines") or ())
+            j_of = {}
+            for k, v in pos_of.items():
+                j_of.setdefault(v, k)
             for d in sh:
-                kinds_seen[d["kind"] + ("+node" if d["has_node"] else "")] += 1
+                kinds_seen[("RangeFuncDrain" if d.get("lines") else d["kind"]) + ("+node" if d["has_node"] else "")] += 1
             if lr is None or not lr.get("ended", True):
                 # the process died in (or before) this run: classify by the defers the reference run executed.
                 # When the run violates the compile-order premise a foreign argument node is decoded with
@@ -223,7 +242,10 @@ def run(ck):
             cases.append(term)
             beh = getattr(fns[fn], "behaviour", {})
             kinds = "[" + "; ".join(beh.get(j_of.get(pos, -1), "DPlain") for pos in range(len(sh))) + "]"
-            if lr.get("endflag") is not None:
+            # (the outcome model has one behaviour per replay statement: functions whose recovering / re-panicking
+            # defers share a drain statement with others are compared on the call sequence and with go only)
+            shared = any(d.get("lines") for d in sh) and bool(beh)
+            if lr.get("endflag") is not None and not shared:
                 ocases.append("((%s, %s, [%s], %s), ([%s], %s))" % (
                     coq_shape(sh), kinds, "; ".join("(%d%%nat, %d%%N)" % (pos, p + 10) for pos, p in regs),
                     "true" if lr["bodypanic"] else "false",
